@@ -207,6 +207,7 @@ def sweep(prop: str, repo: str, tier: str, seed: int, max_mutants: int = 480, jo
         'per_function': {k: {'evaluated': v[0], 'reported': v[1]} for k, v in sorted(per_fn.items())},
         'reported_samples': ['%s  %s' % (r[0].split('::')[-1], r[2]) for r in killed[:12]],
         'not_reported_samples': ['%s  %s' % (r[0].split('::')[-1], r[2]) for r in survived[:40]],
+        'all_survivors': ['%s  %s' % (r[0].split('::')[-1], r[2]) for r in survived] if max_mutants > 10000 else [],
         'note': 'generic syntactic mutants; many are behaviour-preserving or irrelevant to this property (logging, unrelated branches), so the ratio is a lower bound on how much of the '
                 'analysed code the rules constrain, not a detection rate for property-breaking changes (that is measured by seeded/ and refactors/)',
     }
